@@ -311,6 +311,30 @@ def run(ck: Check):
                 cases.append((W, cc, xs_, None))
                 impl.append(o_)
     ck.count("long_ones_then_drop_runs", 8)
+    # (c) the same 0/1 stream handed over as narrow NumPy integers (more than 256 ones, so that anything accumulated in the
+    #     values' own type would wrap) and as np.float64: flags and counters as for Python ints, both detectors, both modes
+    import random as _random
+
+    import numpy as _np
+
+    trng = _random.Random(40404)
+    for dname, D, cc0 in (("HDDMA", A, dict(alpha_d=0.001, alpha_w=0.005, min_num_instances=30)), ("HDDMW", W, dict(alpha_d=0.001, alpha_w=0.005, lambda_=0.05, min_num_instances=30))):
+        for ts in (False, True):
+            cc = dict(cc0, two_sided_test=ts)
+            ints = [int(trng.random() < 0.8) for _ in range(700)]
+            ref, e0, _ = run_impl(D, cc, ints)
+            for dt in (_np.uint8, _np.int8, _np.float64):
+                o_, e_, _ = run_impl(D, cc, [dt(v) for v in ints])
+                ck.case(dict(detector=dname, config=cc, kind="typed-stream", dtype=dt.__name__), nontrivial=True, key=repr(("typed", dname, ts, dt.__name__)))
+                ck.count("typed_stream_runs")
+                if e_ is not None or e0 is not None:
+                    if e_ is not None and e0 is None:
+                        ck.violation(dict(clause="raises", detector=dname, dtype=dt.__name__), dict(what="the detector raises when the 0/1 stream arrives as NumPy scalars", detector=dname, config=cc, dtype=dt.__name__, error=repr(e_), step=len(o_) + 1))
+                    continue
+                k = next((i for i, (a, b_) in enumerate(zip(o_, ref)) if (a[0], a[1], a[2]) != (b_[0], b_[1], b_[2])), None)
+                if k is not None:
+                    ck.violation(dict(clause="verdict", detector=dname, regime="typed-stream", dtype=dt.__name__),
+                                 dict(what="the verdicts on a 0/1 stream depend on the numeric type that carries the values", detector=dname, config=cc, dtype=dt.__name__, stream=ints[: k + 1], step=k + 1, flags_typed=list(o_[k][:3]), flags_python_int=list(ref[k][:3])))
     # correspondence
     models = run_models("C04", cases, shard=60)
     from detectors import corr_compare
